@@ -99,6 +99,13 @@ Proof.
     pose proof (Forall_inv Ha) as Hab. cbn in Hab. lia.
 Qed.
 
+Theorem written_known_sorted msg_keys s forget folder name k :
+  StronglySorted Z.lt msg_keys -> Forall (fun x => 0 <= x) msg_keys -> In k msg_keys ->
+  (In k (seq_of (written msg_keys s forget folder) name) <-> In k (seq_of s name)).
+Proof.
+  intros Hs Hp Hin. exact (written_known_exact msg_keys s forget folder name k (highest_is_max msg_keys k Hs Hp Hin)).
+Qed.
+
 (* ---- reading: Seen is the complement of unseen among the messages of the folder ---- *)
 Theorem update_seen_seen msg_keys s recent k :
   In k (seq_of (update_seen msg_keys s recent) "Seen") <-> In k msg_keys /\ ~ In k (seq_of s "unseen").
